@@ -887,8 +887,46 @@ def _flat(t):
     return out
 
 
+def r39(ctx, fx):
+    rid = ctx.rule("R3.9", "`.text` stores the bytes of the string in the selected encoding, for every character: in the encoders (mos_core::cbm, codegen::text_encoding) a "
+                   "`char` is cut to a narrower integer (`c as u8`) only where the same `char` has been tested (`c.is_ascii()`, a comparison of `c` / `c as u32` with a "
+                   "bound) — a test of the byte *after* the cut says nothing about the character: U+2523 has the low byte `#`")
+    from .c11 import _anc_walk
+    n_fns = n = 0
+    for f in sorted(fx.all_fns("mos_core"), key=lambda f: f.path):
+        if f.kind == "closure" or not f.d.get("hir") or "::tests::" in f.path or not f.path.startswith(("mos_core::cbm::", "mos_core::codegen::text_encoding::")):
+            continue
+        n_fns += 1
+        for x, anc in _anc_walk(f.hir["body"]):
+            if not (x.get("k") == "cast" and str(x.get("ty")) in ("u8", "i8", "u16", "i16") and str(lib.strip(x.get("a", {})).get("ty")) == "char"):
+                continue
+            n += 1
+            who = lib.hpath(lib.strip(x["a"]))
+            guarded = False
+            for p_, key in anc:
+                if (p_.get("k") == "if" and key == "then") or (p_.get("k") == "binary" and p_.get("op") == "And" and key == "r"):
+                    for y in lib.hwalk(p_["cond"] if p_.get("k") == "if" else p_["l"]):
+                        if y.get("k") == "mcall" and y.get("name") in ("is_ascii", "is_ascii_alphanumeric", "is_ascii_graphic", "is_ascii_digit", "is_ascii_alphabetic") and \
+                                str(lib.strip(y["recv"]).get("ty")) in ("char", "&char") and lib.hpath(lib.strip(y["recv"])) == who:
+                            guarded = True
+                        if y.get("k") == "binary" and y.get("op") in ("Lt", "Le") and any(
+                                z.get("k") == "path" and lib.hpath(z) == who and str(z.get("ty")) == "char" for z in lib.hwalk(y["l"])):
+                            guarded = True
+                if p_.get("k") == "match" and key == "arms":
+                    pass
+            key = "%s|char-cut#%d" % (f.path, n)
+            ctx.inst(rid, key, sample={"fn": f.path, "line": x.get("ln"), "char": who, "tested_as_a_character_first": guarded})
+            if not guarded:
+                ctx.finding(rid, key, "%s cuts the character `%s` to `%s` without having tested the character itself: a character beyond U+00FF whose low byte looks like "
+                            "ASCII is encoded as that ASCII character (`┣` U+2523 as `#`)" % (f.path.rsplit("::", 1)[-1], who, x.get("ty")), "%s:%s" % (f.file, x.get("ln")))
+    ctx.inst(rid, "encoders", sample={"functions_scanned": n_fns, "casts_of_a_char_to_a_narrower_integer": n})
+    if n_fns < 3:
+        ctx.fail_closed(rid, "fewer than 3 functions found in the text encoders (%d)" % n_fns)
+
+
 def run(ctx):
     fx = ctx.facts
+    r39(ctx, fx)
     R = ref()
     r31_33_34(ctx, fx, R)
     r36(ctx, fx, R)
@@ -896,6 +934,6 @@ def run(ctx):
     r38(ctx, fx, R)
     r32(ctx, fx, R)
     r35(ctx, fx, R)
-    ctx.not_decided("numeric results of the underlying i64 operations (rustc's), PETSCII conversion tables, string interpolation values, "
+    ctx.not_decided("numeric results of the underlying i64 operations (rustc's), the contents of the PETSCII conversion tables, string interpolation values, "
                     "precedence between operator classes the documentation leaves open")
     ctx.assume("ref/operators.json transcribes docs/src/guide/assembler.md and the property statement")
